@@ -2465,3 +2465,4 @@ def replay(ctx, payload):
     ctx.extra["rule"] = RULE
     fresh_rig()
     eval_cases(ctx, [payload["case"]])
+THEOREMS += ['res_step', 'res_loop', 'gen_minimal_core_reservations']   # translator tie: generated function bodies = model (Props/C14Gen.lean)
